@@ -29,7 +29,7 @@ import (
 var c12Tokens = []string{"a", "&", "=", "#", "+", "%", "%26", " ", "\"", "'", "<", ";", "?", "/", "é", "\U0001F600", "\r\n", "&SAMLRequest=x", "&SigAlg=x", "%zz", "\t"}
 
 // "resploc": the IdP's logout endpoints also advertise a ResponseLocation (where logout RESPONSES may be sent); requests still go to Location
-var c12Endpoints = []struct{ name, suffix string }{{"plain", ""}, {"q1", "?a=b"}, {"q2", "?a=b&c=d%26e"}, {"trailing-q", "?"}, {"resploc", ""}, {"port", ":8443"}}
+var c12Endpoints = []struct{ name, suffix string }{{"plain", ""}, {"q1", "?a=b"}, {"q2", "?a=b&c=d%26e"}, {"trailing-q", "?"}, {"resploc", ""}, {"port", ":8443"}, {"endpoints-in-second-role-descriptor", ""}, {"bindings-split-over-two-role-descriptors", ""}}
 
 var c12Messages = []string{"authn-redirect", "authn-post", "logoutreq-redirect", "logoutreq-post", "logoutresp-redirect", "logoutresp-post"}
 
@@ -118,6 +118,32 @@ func c12SP(cf c12Cfg) (*saml.ServiceProvider, string, string) {
 				d.SingleSignOnServices[j].ResponseLocation = c12RespLoc
 			}
 		}
+	}
+	// IdP metadata with more than one IDPSSODescriptor: the endpoint for the binding in use is in a later one
+	switch c12Endpoints[cf.endpoint].name {
+	case "endpoints-in-second-role-descriptor":
+		full := sp.IDPMetadata.IDPSSODescriptors[0]
+		bare := full
+		bare.SingleSignOnServices, bare.SingleLogoutServices, bare.ArtifactResolutionServices = nil, nil, nil
+		sp.IDPMetadata.IDPSSODescriptors = []saml.IDPSSODescriptor{bare, full}
+	case "bindings-split-over-two-role-descriptors":
+		full := sp.IDPMetadata.IDPSSODescriptors[0]
+		only := func(b string) saml.IDPSSODescriptor {
+			d := full
+			d.SingleSignOnServices, d.SingleLogoutServices = nil, nil
+			for _, e := range full.SingleSignOnServices {
+				if e.Binding == b {
+					d.SingleSignOnServices = append(d.SingleSignOnServices, e)
+				}
+			}
+			for _, e := range full.SingleLogoutServices {
+				if e.Binding == b {
+					d.SingleLogoutServices = append(d.SingleLogoutServices, e)
+				}
+			}
+			return d
+		}
+		sp.IDPMetadata.IDPSSODescriptors = []saml.IDPSSODescriptor{only(saml.HTTPPostBinding), only(saml.HTTPRedirectBinding)}
 	}
 	return sp, sso, slo
 }
@@ -518,9 +544,15 @@ func c12OneHold(t *core.T, getSP func(c12Cfg) (*saml.ServiceProvider, string, st
 				if strings.ContainsAny(u.String(), " \r\n\t") {
 					return // not a usable request line; already reported above as url-unparseable / relaystate-altered
 				}
+				if u.Host == "" || u.Scheme == "" {
+					return // nowhere to send it; reported above (destination / target checks)
+				}
 				hr = httptest.NewRequest("GET", u.String(), nil)
 			} else {
 				f, _ := htmlform.Parse(page)
+				if au, aerr := url.Parse(f.Action); aerr != nil || au.Host == "" || strings.ContainsAny(f.Action, " \r\n\t") {
+					return // a form that posts nowhere; reported above
+				}
 				hr = httptest.NewRequest("POST", f.Action, strings.NewReader(url.Values{"SAMLRequest": {f.Fields["SAMLRequest"]}, "RelayState": {f.Fields["RelayState"]}}.Encode()))
 				hr.Header.Set("Content-Type", "application/x-www-form-urlencoded")
 			}
